@@ -139,6 +139,18 @@ def check_case(label, m, e, rng):
     comp = basis.complement_dofs(basis.get_dofs())
     if sorted(int(g) for g in comp) != sorted(set(range(N)) - gb):
         fails.append("%s: COMPLEMENT complement_dofs(get_dofs()) is not [0,N) minus the boundary DOFs" % ename)
+    # ... also when asked through a basis restricted to some cells / facets (it shares N and the numbering with the full basis)
+    try:
+        subs = [("CellBasis(elements=first half)", fem.CellBasis(m, e, elements=np.arange(max(1, nt // 2))))]
+        if m.dim() >= 2 and m.bndelem is not None and not isinstance(e, fem.ElementComposite) and type(e).__name__ != "ElementTriN3":
+            subs.append(("FacetBasis(two boundary facets)", fem.FacetBasis(m, e, facets=m.boundary_facets()[:2])))
+        for sname, sb in subs:
+            comp = sb.complement_dofs(sb.get_dofs())
+            if sorted(int(g) for g in comp) != sorted(set(range(N)) - gb):
+                fails.append("%s: COMPLEMENT complement_dofs(get_dofs()) asked through %s is not [0,N) minus the boundary DOFs (%d instead of %d DOFs)" % (ename, sname, len(comp), N - len(gb)))
+    except Exception as ex:
+        if not isinstance(ex, NotImplementedError):
+            fails.append("%s: COMPLEMENT through a restricted basis raised %s: %s" % (ename, type(ex).__name__, str(ex)[:100]))
     # elements / nodes
     K = np.arange(nt)[::2]
     wantK = set(int(g) for g in basis.element_dofs[:, K].ravel())
